@@ -1121,28 +1121,51 @@ Section WithMatch.
     rewrite pe_single_op in H by (exact Hk || reflexivity). exact H.
   Qed.
 
+  (* what projectSliceInt returns lies in the int32 range *)
+  Lemma project_slice_int_range v n : wf v = true -> project_slice_int v = Some n -> int32r n.
+  Proof.
+    unfold int32r. intros Hw H. destruct v; cbn [project_slice_int] in H; try discriminate.
+    - inversion H. subst. cbn [wf] in Hw. apply andb_prop in Hw. destruct Hw as [H1 H2].
+      apply Z.leb_le in H1. apply Z.ltb_lt in H2. lia.
+    - inversion H. subst. unfold clamp_int32.
+      destruct (max_int32 <? z)%Z eqn:E1; [unfold max_int32, two31; lia|]. apply Z.ltb_ge in E1.
+      destruct (z <? - max_int32)%Z eqn:E2; [unfold max_int32, two31; lia|]. apply Z.ltb_ge in E2.
+      unfold max_int32, two31 in *. lia.
+    - destruct (xnum_of_double bits) as [| |q|]; [discriminate| | |];
+        try (inversion H; subst; unfold max_int32, two31; lia).
+      destruct (Qle_bool q (max_int32 # 1)) eqn:E1; [|inversion H; subst; unfold max_int32, two31; lia].
+      destruct (Qle_bool (- max_int32 # 1) q) eqn:E2; [|inversion H; subst; unfold max_int32, two31; lia].
+      inversion H. subst n. apply Qle_bool_iff in E1. apply Qle_bool_iff in E2.
+      unfold Qle in E1, E2. cbn [Qnum Qden] in E1, E2.
+      destruct q as [num den]. cbn [Qnum Qden] in *.
+      assert (Hd : (0 < Zpos den)%Z) by lia.
+      assert (H1 : (Z.quot num (Zpos den) <= max_int32)%Z).
+      { rewrite <- (Z.quot_mul max_int32 (Zpos den)) by lia. apply Z.quot_le_mono; lia. }
+      assert (H2 : (- max_int32 <= Z.quot num (Zpos den))%Z).
+      { rewrite <- (Z.quot_mul (- max_int32) (Zpos den)) by lia. apply Z.quot_le_mono; lia. }
+      unfold max_int32, two31 in *. lia.
+  Qed.
+
+  Lemma int32r_int64 n : int32r n -> int64 n.
+  Proof. unfold int32r, int64. pose proof two31_lt_two63. lia. Qed.
+
   (* $slice: n *)
   Theorem slice_spec_n d pre post p x n a r :
     forallb plain_entry pre = true -> forallb plain_entry post = true ->
     kpath_str p = true -> root p <> "_id" ->
-    project_slice_int x = Ok (Some n) -> int64 n ->
+    wf x = true -> project_slice_int x = Some n ->
     Get d p = VArr a -> (len a < two63)%Z ->
     Proj d (pre ++ (p, VDoc [("$slice", x)]) :: post) = Ok r ->
     Get r p = VArr (window_n n a).
   Proof.
-    intros Hpre Hpost Hk Hroot Hx Hn Ha Hlen H. unfold project_with, project_process in H.
+    intros Hpre Hpost Hk Hroot Hwf Hx Ha Hlen H. unfold project_with, project_process in H.
+    pose proof (int32r_int64 n (project_slice_int_range x n Hwf Hx)) as Hn.
     apply bind_ok in H. destruct H as [st [Hp Hs]].
     destruct (one_operator_merge _ _ _ _ _ _ Hpre Hpost Hp) as [st1 [st2 [Hm1 [_ [He [Hm _]]]]]].
     apply slice_entry_step in He. unfold project_slice in He. rewrite Ha in He.
     assert (Harg : exists w, slice_limit a n = Ok w /\ st2 = set_merge st1 p (VArr w)).
-    { destruct x; cbn [project_slice_int] in Hx; try discriminate.
-      - inversion Hx. subst z. cbn [bind] in He. apply bind_ok in He. destruct He as [w [Hw He]].
-        inversion He. eauto.
-      - inversion Hx. subst z. cbn [bind] in He. apply bind_ok in He. destruct He as [w [Hw He]].
-        inversion He. eauto.
-      - apply bind_ok in Hx. destruct Hx as [z [Hz Hx]]. inversion Hx. subst z.
-        rewrite Hz in He. cbn [bind] in He. apply bind_ok in He. destruct He as [w [Hw He]].
-        inversion He. eauto. }
+    { destruct x; try discriminate Hx; rewrite Hx in He; cbn [bind] in He;
+        apply bind_ok in He; destruct He as [w [Hw He]]; inversion He; eauto. }
     destruct Harg as [w [Hw Hst2]].
     rewrite (slice_limit_spec a n w Hn Hlen Hw) in Hst2.
     apply (single_merge_result st d r p _ Hs); try assumption; [|reflexivity].
@@ -1153,23 +1176,60 @@ Section WithMatch.
   Theorem slice_spec_skip_limit d pre post p xs xl s l a r :
     forallb plain_entry pre = true -> forallb plain_entry post = true ->
     kpath_str p = true -> root p <> "_id" ->
-    project_slice_int xs = Ok (Some s) -> project_slice_int xl = Ok (Some l) ->
-    int64 s -> int64 l ->
+    wf xs = true -> wf xl = true ->
+    project_slice_int xs = Some s -> project_slice_int xl = Some l ->
     Get d p = VArr a -> (len a < two63)%Z ->
     Proj d (pre ++ (p, VDoc [("$slice", VArr [xs; xl])]) :: post) = Ok r ->
     (0 <= l)%Z /\ Get r p = VArr (window_skip_limit s l a).
   Proof.
-    intros Hpre Hpost Hk Hroot Hxs Hxl Hs_ Hl_ Ha Hlen H. unfold project_with, project_process in H.
+    intros Hpre Hpost Hk Hroot Hws Hwl Hxs Hxl Ha Hlen H. unfold project_with, project_process in H.
+    pose proof (int32r_int64 s (project_slice_int_range xs s Hws Hxs)) as Hs_.
+    pose proof (int32r_int64 l (project_slice_int_range xl l Hwl Hxl)) as Hl_.
     apply bind_ok in H. destruct H as [st [Hp Hs]].
     destruct (one_operator_merge _ _ _ _ _ _ Hpre Hpost Hp) as [st1 [st2 [Hm1 [_ [He [Hm _]]]]]].
-    apply slice_entry_step in He. unfold project_slice in He. rewrite Ha, Hxs in He.
-    cbn [bind] in He. rewrite Hxl in He. cbn [bind] in He.
+    apply slice_entry_step in He. unfold project_slice in He. rewrite Ha, Hxs, Hxl in He.
     destruct (l <? 0)%Z eqn:El; [discriminate|]. apply Z.ltb_ge in El.
     cbn [bind] in He. apply bind_ok in He. destruct He as [w [Hw He]]. inversion He as [Hst2].
     split; [exact El|].
     rewrite (slice_skip_limit_spec a s l w Hs_ Hl_ El Hlen Hw) in Hst2.
     apply (single_merge_result st d r p _ Hs); try assumption; [|reflexivity].
     rewrite Hm, <- Hst2. cbn [set_merge ps_merge]. rewrite Hm1. reflexivity.
+  Qed.
+
+  (* $slice never panics (and is always modelled): for every argument the
+     operator either reports an error or succeeds.  The array-length bound
+     holds for every Go slice. *)
+  Theorem slice_total st d o p v :
+    wf v = true ->
+    (forall a, Get d p = VArr a -> (len a < two63 - two31)%Z) ->
+    project_slice st d o p v = Err \/ exists st', project_slice st d o p v = Ok st'.
+  Proof.
+    intros Hwf Hlen. unfold project_slice.
+    assert (Hnum : forall n, int32r n ->
+              exists st', match Get d p with
+                          | VArr a => let* w := slice_limit a n in Ok (set_merge st p (VArr w))
+                          | _ => Ok st
+                          end = Ok st').
+    { intros n Hr. destruct (Get d p) eqn:Eg; eauto.
+      assert (Hl : (len a < two63)%Z) by (pose proof (Hlen a eq_refl); unfold two31 in *; lia).
+      destruct (slice_limit_total a n Hr Hl) as [w Hw]. rewrite Hw. cbn [bind]. eauto. }
+    destruct v; try (left; reflexivity).
+    - destruct (project_slice_int (VInt32 z)) as [n|] eqn:E; [|left; reflexivity].
+      right. cbn [bind]. exact (Hnum n (project_slice_int_range _ n Hwf E)).
+    - destruct (project_slice_int (VInt64 z)) as [n|] eqn:E; [|left; reflexivity].
+      right. cbn [bind]. exact (Hnum n (project_slice_int_range _ n Hwf E)).
+    - destruct (project_slice_int (VDouble bits)) as [n|] eqn:E; [|left; reflexivity].
+      right. cbn [bind]. exact (Hnum n (project_slice_int_range _ n Hwf E)).
+    - (* [skip, limit] *)
+      destruct a as [|x [|y [|z t]]]; try (left; reflexivity).
+      cbn [wf] in Hwf. apply andb_prop in Hwf. destruct Hwf as [Hwx Hwf]. apply andb_prop in Hwf. destruct Hwf as [Hwy _].
+      destruct (project_slice_int x) as [s|] eqn:Ex; [|left; reflexivity].
+      destruct (project_slice_int y) as [l|] eqn:Ey; [|left; reflexivity].
+      destruct (l <? 0)%Z eqn:El; [left; reflexivity|]. apply Z.ltb_ge in El.
+      cbn [bind]. right. destruct (Get d p) eqn:Eg; eauto.
+      destruct (slice_skip_limit_total a s l (project_slice_int_range x s Hwx Ex)
+                  (project_slice_int_range y l Hwy Ey) El (Hlen a eq_refl)) as [w Hw].
+      rewrite Hw. cbn [bind]. eauto.
   Qed.
 
   (* -------------------------------------------------------------- *)
@@ -1296,51 +1356,6 @@ Section WithMatch.
   (* -------------------------------------------------------------- *)
   (* C14: the source document *)
 
-  Definition Inv (PR : doc) (st : pstate) : Prop :=
-    (forall p, In p (ps_include st) -> In p (included_keys PR) \/ In p (ps_skip st)) /\
-    (forall q v, In (q, v) (ps_merge st) -> In q (operator_keys PR)) /\
-    (ps_include st <> [] -> included_keys PR <> [] \/ has_elem_match PR = true).
-
-  Lemma inv_step PR st d k v st' :
-    In (k, v) PR -> Inv PR st -> process_expression pctx st d "" (k, v) true = Ok st' -> Inv PR st'.
-  Proof.
-    intros Hin [I1 [I2 I3]] H.
-    destruct (process_expression_ok _ _ _ _ _ H) as [[Ho Hs]|[Ho [_ [exps [Hv Hg]]]]].
-    - inversion Hs as [Hc|Hc Hk|Hc Hk]; subst st'; cbn [add_include set_hide_id add_exclude ps_include ps_merge ps_skip];
-        try (split; [exact I1|split; [exact I2|exact I3]]).
-      assert (Hk : In k (included_keys PR)).
-      { unfold included_keys. change k with (fst (k, v)). apply in_map. apply filter_In.
-        split; [exact Hin|]. rewrite Ho. cbn [negb andb snd]. exact (proj1 (condition_incl _ Hc)). }
-      split; [|split; [exact I2|]].
-      + intros p Hp. apply in_app_or in Hp. destruct Hp as [Hp|[E|[]]]; [exact (I1 p Hp)|]. subst p. left. exact Hk.
-      + intros _. left. intro E. rewrite E in Hk. destruct Hk.
-    - destruct Hg as [ge gh [n [gi gi']] gs gm]. split; [|split].
-      + intros p Hp. rewrite gi in Hp. apply in_app_or in Hp. destruct Hp as [Hp|Hp].
-        * destruct (I1 p Hp) as [Hq|Hq]; [left; exact Hq|right; exact (gs p Hq)].
-        * destruct n as [|n]; [destruct Hp|].
-          apply repeat_spec in Hp. subst p. right. exact (proj1 (gi' (Nat.neq_succ_0 n))).
-      + intros q w Hq. destruct (gm q w Hq) as [[w0 Hq0]|Hq0]; [exact (I2 q w0 Hq0)|].
-        subst q. unfold operator_keys. change k with (fst (k, v)). apply in_map. apply filter_In. tauto.
-      + intro Hne. destruct n as [|n].
-        * cbn [repeat] in gi. rewrite app_nil_r in gi. rewrite gi in Hne. exact (I3 Hne).
-        * right. destruct (gi' (Nat.neq_succ_0 n)) as [_ Hem].
-          unfold has_elem_match. apply existsb_exists. exists (k, v). split; [exact Hin|].
-          cbn [snd]. subst v. rewrite Ho, Hem. reflexivity.
-  Qed.
-
-  Lemma inv_process PR st d l st' :
-    (forall e, In e l -> In e PR) -> Inv PR st -> process pctx st d l "" true = Ok st' -> Inv PR st'.
-  Proof.
-    revert st. induction l as [|[k v] t IH]; intros st Hl Hi H.
-    - cbn [process] in H. inversion H. subst. exact Hi.
-    - destruct (process_cons _ _ _ _ _ H) as [st1 [H1 H2]].
-      apply (IH st1); [intros e He; apply Hl; right; exact He| |exact H2].
-      exact (inv_step PR st d k v st1 (Hl _ (or_introl eq_refl)) Hi H1).
-  Qed.
-
-  Lemma inv_pstate0 PR : Inv PR pstate0.
-  Proof. split; [|split]; cbn [pstate0 ps_include ps_merge]; try tauto. intros q v []. Qed.
-
   Lemma source_after_id roots m src :
     (forall q v, In (q, v) m -> writes_through roots q = false) -> source_after roots m src = src.
   Proof.
@@ -1349,70 +1364,43 @@ Section WithMatch.
     apply IH. intros q' v' Hin. apply (H q' v'). right. exact Hin.
   Qed.
 
-  Lemma include_roots_in d skip paths roots0 r :
-    In r (include_roots d skip paths roots0) ->
-    In r roots0 \/ exists p, In p paths /\ str_mem p skip = false /\ r = split_path p.
+  (* copied values make no alias root *)
+  Lemma include_roots_copied d skip paths : include_roots Copied d skip paths [] = [].
   Proof.
-    revert roots0. induction paths as [|p0 t IH]; intros roots0 H; cbn [include_roots] in H; [tauto|].
-    destruct (str_mem p0 skip) eqn:Es.
-    - destruct (IH _ H) as [H1|[p [H1 H2]]]; [tauto|]. right. exists p. split; [right; exact H1|exact H2].
-    - destruct (is_missing (Get d p0)).
-      + destruct (IH _ H) as [H1|[p [H1 H2]]]; [tauto|]. right. exists p. split; [right; exact H1|exact H2].
-      + destruct (IH _ H) as [H1|[p [H1 H2]]].
-        * unfold add_root in H1. destruct (existsb (fun r0 => proper_prefix r0 (split_path p0)) roots0); [tauto|].
-          destruct H1 as [H1|H1].
-          -- right. exists p0. split; [left; reflexivity|]. split; [exact Es|congruence].
-          -- apply filter_In in H1. tauto.
-        * right. exists p. split; [right; exact H1|exact H2].
+    induction paths as [|p0 t IH]; cbn [include_roots]; [reflexivity|].
+    destruct (str_mem p0 skip); [exact IH|]. destruct (is_missing (Get d p0)); exact IH.
   Qed.
 
-  Lemma existsb_false_in {A} (f : A -> bool) l x : existsb f l = false -> In x l -> f x = false.
-  Proof.
-    intros H Hin. destruct (f x) eqn:E; [|reflexivity].
-    assert (existsb f l = true) by (apply existsb_exists; eauto). congruence.
-  Qed.
+  Lemma alias_roots_copied st d : alias_roots Copied st d = [].
+  Proof. unfold alias_roots. destruct (ps_include st); [reflexivity|apply include_roots_copied]. Qed.
 
   Notation ProjSrc := (project_src_with matchf).
 
   Lemma project_src_result d pr r s : ProjSrc d pr = Ok (r, s) -> Proj d pr = Ok r.
   Proof.
-    unfold project_src_with, project_with. intro H. apply bind_ok in H. destruct H as [st [Hp H]].
+    unfold project_src_with, project_src_gen, project_with. intro H. apply bind_ok in H. destruct H as [st [Hp H]].
     apply bind_ok in H. destruct H as [r' [Hs H]]. inversion H. subst. rewrite Hp. exact Hs.
   Qed.
 
-  (* without colliding paths the call leaves its source document alone *)
-  Theorem project_pure_partial d pr r s :
-    no_colliding_paths pr -> ProjSrc d pr = Ok (r, s) -> s = d.
+  (* projecting never alters the source document: every value stored in the
+     result is a private copy (cloneProjected, /repo 878ebea) *)
+  Theorem project_pure d pr r s : ProjSrc d pr = Ok (r, s) -> s = d.
   Proof.
-    unfold no_colliding_paths, project_src_with. intros Hnc H.
+    unfold project_src_with, project_src_gen, stored_provenance. intro H.
     apply bind_ok in H. destruct H as [st [Hp H]].
-    apply bind_ok in H. destruct H as [r' [Hs H]]. inversion H. subst r' s. clear H.
-    apply source_after_id. intros q v Hq.
-    destruct (inv_process pr pstate0 d pr st (fun e He => He) (inv_pstate0 pr) Hp) as [I1 [I2 I3]].
-    unfold writes_through. destruct (existsb _ (alias_roots st d)) eqn:E; [|reflexivity]. exfalso.
-    apply existsb_exists in E. destruct E as [rt [Hrt Hpp]].
-    unfold alias_roots in Hrt. destruct (ps_include st) as [|i0 il] eqn:Ei; [destruct Hrt|].
-    assert (Hne : i0 :: il <> []) by discriminate.
-    unfold colliding_paths in Hnc.
-    assert (Hhas : (match included_keys pr with [] => has_elem_match pr | _ => true end) = true).
-    { destruct (I3 Hne) as [H1|H1]; [destruct (included_keys pr); [congruence|reflexivity]|].
-      destruct (included_keys pr); [exact H1|reflexivity]. }
-    rewrite Hhas in Hnc.
-    assert (Hq' : In (split_path q) (map split_path (operator_keys pr))) by (apply in_map; exact (I2 q v Hq)).
-    assert (Hshared : In rt (map split_path ("_id" :: included_keys pr))).
-    { destruct (include_roots_in _ _ _ _ _ Hrt) as [[E|[]]|[p [Hp1 [Hp2 Hp3]]]].
-      - subst rt. left. reflexivity.
-      - subst rt. right. apply in_map. destruct (I1 p Hp1) as [H1|H1]; [exact H1|].
-        apply str_mem_in in H1. congruence. }
-    pose proof (existsb_false_in _ _ rt Hnc Hshared) as H1. cbn beta in H1.
-    pose proof (existsb_false_in _ _ (split_path q) H1 Hq') as H2. cbn beta in H2. congruence.
+    apply bind_ok in H. destruct H as [r' [Hs H]]. inversion H. subst r' s.
+    rewrite alias_roots_copied. apply source_after_id. reflexivity.
   Qed.
 
-  (* ... and a later projection of it gives the same result *)
-  Corollary project_later_results d pr r s :
-    no_colliding_paths pr -> ProjSrc d pr = Ok (r, s) -> Proj s pr = Ok r.
+  (* ... nor later results *)
+  Corollary project_later_results d pr r s : ProjSrc d pr = Ok (r, s) -> Proj s pr = Ok r.
+  Proof. intro H. rewrite (project_pure _ _ _ _ H). exact (project_src_result _ _ _ _ H). Qed.
+
+  (* the source is reported for every successful projection *)
+  Lemma project_src_total d pr r : Proj d pr = Ok r -> exists s, ProjSrc d pr = Ok (r, s).
   Proof.
-    intros Hnc H. rewrite (project_pure_partial _ _ _ _ Hnc H). exact (project_src_result _ _ _ _ H).
+    unfold project_with, project_src_with, project_src_gen. intro H.
+    apply bind_ok in H. destruct H as [st [Hp Hs]]. rewrite Hp. cbn [bind]. rewrite Hs. cbn [bind]. eauto.
   Qed.
 
   (* order of the remaining top-level fields of an exclusion *)
@@ -1425,17 +1413,150 @@ Section WithMatch.
     apply pruned_fields_keys. apply pruned_fields_of. exact Hp.
   Qed.
 
-  (* the full purity statement is false of the faithful model: the recorded
-     colliding-paths defect *)
+  (* -------------------------------------------------------------- *)
+  (* Project never panics (for C20): given a matcher that does not. *)
+
+  Lemma bind_no_panic {A B} (r : res A) (f : A -> res B) :
+    r <> Panic -> (forall x, r = Ok x -> f x <> Panic) -> bind r f <> Panic.
+  Proof. destruct r; cbn [bind]; intros H1 H2; try discriminate; [apply H2; reflexivity|congruence]. Qed.
+
+  Lemma put_doc_result d k rest nv pre old v' :
+    put (VDoc d) (k :: rest) nv pre = Some (old, v') -> exists d', v' = VDoc d'.
+  Proof.
+    cbn [put]. destruct (empty_path (k :: rest)); [discriminate|].
+    match goal with |- match ?X with _ => _ end = _ -> _ => destruct X as [[[o d']|]|] end.
+    - intro H. inversion H. eauto.
+    - discriminate.
+    - destruct (is_missing nv); [discriminate|]. destruct (put_new rest nv); [|discriminate].
+      destruct pre; intro H; inversion H; eauto.
+  Qed.
+
+  Lemma Put_no_panic d ps v pre : Put d ps v pre <> Panic.
+  Proof.
+    unfold Put, put_path. destruct (is_missing v); [discriminate|].
+    destruct (split_path ps) as [|k rest] eqn:E; [exfalso; exact (split_path_nonempty ps E)|].
+    destruct (put (VDoc d) (k :: rest) v pre) as [[old v']|] eqn:Ep; [|discriminate].
+    destruct (put_doc_result _ _ _ _ _ _ _ Ep) as [d' Hd]. subst v'. discriminate.
+  Qed.
+
+  Lemma copy_included_no_panic d skip paths r : copy_included d skip paths r <> Panic.
+  Proof.
+    revert r. induction paths as [|p0 t IH]; intro r; cbn [copy_included]; [discriminate|].
+    destruct (str_mem p0 skip); [apply IH|]. destruct (is_missing (Get d p0)); [apply IH|].
+    cbn [clone_projected bind]. apply bind_no_panic; [apply Put_no_panic|]. intros [o r'] _. apply IH.
+  Qed.
+
+  Lemma apply_merges_no_panic m r : apply_merges m r <> Panic.
+  Proof.
+    revert r. induction m as [|[q v] t IH]; intro r; cbn [apply_merges]; [discriminate|].
+    cbn [clone_projected bind]. apply bind_no_panic; [apply Put_no_panic|]. intros [o r'] _. apply IH.
+  Qed.
+
+  Lemma project_state_no_panic st d : project_state st d <> Panic.
+  Proof.
+    unfold project_state.
+    assert (Hrest : forall r1 : res doc, r1 <> Panic ->
+              (let* r := r1 in let* r := apply_merges (ps_merge st) r in
+               Ok (if ps_hide_id st then snd (Unset r "_id") else r)) <> Panic).
+    { intros r1 H1. apply bind_no_panic; [exact H1|]. intros r _.
+      apply bind_no_panic; [apply apply_merges_no_panic|]. discriminate. }
+    destruct (ps_include st) as [|i0 il].
+    - destruct (ps_exclude st); apply Hrest; discriminate.
+    - destruct (ps_exclude st) as [|e0 el]; [|discriminate].
+      apply Hrest. cbn [clone_projected bind].
+      apply bind_no_panic; [apply Put_no_panic|]. intros [o r0] _. apply copy_included_no_panic.
+  Qed.
+
+  Section NoPanic.
+    Hypothesis matchf_no_panic : forall x y, matchf x y <> Panic.
+    Variable d : doc.
+    (* every array of the document is shorter than any Go slice can be *)
+    Hypothesis short_arrays : forall p a, Get d p = VArr a -> (len a < two63 - two31)%Z.
+
+    Lemma first_match_no_panic a q : first_match matchf a q <> Panic.
+    Proof.
+      induction a as [|x t IH]; cbn [first_match]; [discriminate|].
+      apply bind_no_panic; [apply matchf_no_panic|]. intros [|] _; [discriminate|exact IH].
+    Qed.
+
+    Lemma operator_no_panic o st k x (op : operator pstate) :
+      wf x = true -> op_lookup pstate (ctx_expression pctx) o = Some op -> op st d o k x <> Panic.
+    Proof.
+      intros Hw Hl. cbn [ctx_expression projection_context projection_operators op_lookup] in Hl.
+      destruct (String.eqb "" o).
+      { inversion Hl. unfold project_condition.
+        apply bind_no_panic.
+        - unfold condition_value. destruct x; try discriminate;
+            destruct (compare _ (VInt64 1)); try discriminate; destruct (compare _ (VInt64 0)); discriminate.
+        - intros b _. destruct b; [discriminate|]. destruct (String.eqb k "_id"); discriminate. }
+      destruct (String.eqb "$slice" o).
+      { inversion Hl. destruct (slice_total st d o k x Hw (short_arrays k)) as [H|[st' H]]; rewrite H; discriminate. }
+      destruct (String.eqb "$elemMatch" o); [|discriminate].
+      inversion Hl. unfold project_elem_match. destruct x; try discriminate.
+      destruct (Get d k); try discriminate.
+      apply bind_no_panic; [apply first_match_no_panic|]. intros [item|] _; discriminate.
+    Qed.
+
+    Lemma wf_doc_in l k x : wf (VDoc l) = true -> In (k, x) l -> wf x = true.
+    Proof.
+      induction l as [|[k' y] l IH]; cbn [wf In]; [tauto|]. intro H.
+      change (wf y && wf (VDoc l) = true) in H. apply andb_prop in H. destruct H as [Hy Hl].
+      intros [E|Hin]; [inversion E; subst; exact Hy|exact (IH Hl Hin)].
+    Qed.
+
+    Lemma process_ops_no_panic st k exps :
+      wf (VDoc exps) = true -> process_ops pctx st d k exps <> Panic.
+    Proof.
+      revert st. induction exps as [|[o x] t IH]; intros st Hw; cbn [process_ops]; [discriminate|].
+      destruct (negb (is_operator_key o)); [discriminate|].
+      destruct (op_lookup pstate (ctx_expression pctx) o) as [op|] eqn:El; [|discriminate].
+      change (wf x && wf (VDoc t) = true) in Hw. apply andb_prop in Hw. destruct Hw as [Hx Ht].
+      apply bind_no_panic; [exact (operator_no_panic o st k x op Hx El)|]. intros st' _. exact (IH st' Ht).
+    Qed.
+
+    Lemma process_expression_no_panic st k v :
+      wf v = true -> process_expression pctx st d "" (k, v) true <> Panic.
+    Proof.
+      intro Hw. unfold process_expression. destruct (is_operator_key k); [discriminate|].
+      cbn [join_prefix String.eqb].
+      assert (Hs : match op_lookup pstate (ctx_expression pctx) "" with
+                   | Some op => op st d "" k v
+                   | None => if ctx_skip_missing pstate pctx then Ok st else Err
+                   end <> Panic).
+      { destruct (op_lookup pstate (ctx_expression pctx) "") as [op|] eqn:El; [|discriminate].
+        exact (operator_no_panic "" st k v op Hw El). }
+      destruct v; try exact Hs. destruct d0 as [|[k0 v0] t]; [exact Hs|].
+      destruct (is_operator_key k0); [|exact Hs]. apply process_ops_no_panic. exact Hw.
+    Qed.
+
+    Lemma process_no_panic st pr : wf (VDoc pr) = true -> process pctx st d pr "" true <> Panic.
+    Proof.
+      revert st. induction pr as [|[k v] t IH]; intros st Hw; cbn [process]; [discriminate|].
+      change (wf v && wf (VDoc t) = true) in Hw. apply andb_prop in Hw. destruct Hw as [Hv Ht].
+      apply bind_no_panic; [exact (process_expression_no_panic st k v Hv)|]. intros st' _. exact (IH st' Ht).
+    Qed.
+
+    Theorem project_never_panics pr : wf (VDoc pr) = true -> Proj d pr <> Panic.
+    Proof.
+      intro Hw. unfold project_with, project_process.
+      apply bind_no_panic; [apply process_no_panic; exact Hw|]. intros st _. apply project_state_no_panic.
+    Qed.
+  End NoPanic.
+
+  (* History.  Before /repo 878ebea the values were stored as they came from
+     bsonkit.Get (provenance Shared): the same definitions then give the
+     write-through of the merge step that was recorded as
+     C14:colliding-paths-write-through — witness {a: 1, "a.b": {$slice: 1}}
+     on {_id: 7, a: {b: [1, 2, 3], c: 5}}, whose stored a.b became [1].  (The
+     former C14_project_pure_refuted / C14_project_pure_partial.) *)
   Definition wt_doc : doc :=
     [("_id", VInt32 7); ("a", VDoc [("b", VArr [VInt32 1; VInt32 2; VInt32 3]); ("c", VInt32 5)])].
   Definition wt_projection : doc :=
     [("a", VInt32 1); ("a.b", VDoc [("$slice", VInt32 1)])].
 
-  Theorem project_pure_refuted :
-    exists d pr r s, ProjSrc d pr = Ok (r, s) /\ s <> d.
+  Lemma write_through_before_878ebea :
+    exists r s, project_src_gen matchf Shared wt_doc wt_projection = Ok (r, s) /\ s <> wt_doc.
   Proof.
-    exists wt_doc, wt_projection.
     exists [("_id", VInt32 7); ("a", VDoc [("b", VArr [VInt32 1]); ("c", VInt32 5)])].
     exists [("_id", VInt32 7); ("a", VDoc [("b", VArr [VInt32 1]); ("c", VInt32 5)])].
     split; [vm_compute; reflexivity|]. unfold wt_doc. intro H. discriminate H.
